@@ -23,7 +23,38 @@ def bitfield_types():
 
 def units(tier, seed):
     loader.load()
-    return [{"kind": "type", "label": t.__name__, "type": t.__name__, "tier": tier, "seed": seed} for t in bitfield_types()] + [{"kind": "census", "label": "census"}]
+    us = [{"kind": "type", "label": t.__name__, "type": t.__name__, "tier": tier, "seed": seed} for t in bitfield_types()] + [{"kind": "census", "label": "census"}]
+    # histories: all types rendered one after the other in one FRESH process, in every rotation of the type list and its
+    # reverse (every type is the first one printed once, every ordered pair A-before-B occurs)
+    n = len(bitfield_types())
+    for rot in range(n):
+        for rev in (0, 1):
+            us.append({"kind": "order", "label": f"order:{rot}:{rev}", "rot": rot, "rev": rev, "tier": tier, "seed": seed})
+    return us
+
+
+def order_main(rot, rev):
+    """runs in a fresh interpreter: render a few values of every type in the given order, print violations as json"""
+    import json
+    import sys
+
+    loader.load()
+    acc = Acc()
+    ts = bitfield_types()
+    ts = ts[rot:] + ts[:rot]
+    if rev:
+        ts = ts[::-1]
+    n = 0
+    for T in ts:
+        attrs = T(0).attributes()
+        names = [a._name for a in attrs]
+        masks = [int(a._value) for a in attrs]
+        bits = T._int_size * 8
+        full = (1 << bits) - 1
+        for v in sorted({0, full, 0xA5A5A5A5 & full, 0x5A5A5A5A & full} | set(masks) | {full ^ m for m in masks}):
+            check_value(acc, T, v, bits, masks, names)
+            n += 1
+    json.dump({"n": n, "order": [t.__name__ for t in ts], "viol": [{"fp": v["fp"], "case": v["case"], "detail": v["detail"]} for v in acc.viol.values()]}, sys.stdout)
 
 
 def values_for(bits, masks, tier, seed):
@@ -103,6 +134,25 @@ def check_value(acc, T, v, bits, masks, names):
 def run_unit(unit):
     acc = Acc()
     ns = loader.load()
+    if unit["kind"] == "order":
+        import json
+        import os
+        import subprocess
+        import sys
+
+        root = os.path.dirname(os.path.dirname(os.path.dirname(os.path.abspath(__file__))))
+        r = subprocess.run([sys.executable, "-c", f"from vlib.props import c17; c17.order_main({unit['rot']}, {unit['rev']})"], cwd=root, capture_output=True, text=True, timeout=600)
+        if r.returncode != 0:
+            acc.violation({"clause": "harness-error", "what": "order-subprocess"}, {"harness": "order", "rot": unit["rot"], "rev": unit["rev"]}, r.stderr[-400:])
+            return acc
+        d = json.loads(r.stdout)
+        acc.count("evaluations", d["n"])
+        acc.count("order_histories")
+        acc.shape(("order", tuple(d["order"])))
+        for v in d["viol"]:
+            acc.violation(dict(v["fp"], history="order"), dict(v["case"], harness="order", rot=unit["rot"], rev=unit["rev"], order=d["order"]), v["detail"] + f" [types rendered before in this process: {d['order'][: d['order'].index(v['case']['type'])]}]")
+        acc.sample({"unit": unit["label"], "order": d["order"], "values_rendered": d["n"]}, cap=1)
+        return acc
     if unit["kind"] == "census":
         ts = bitfield_types()
         acc.count("types", len(ts))
@@ -155,6 +205,9 @@ def finish(acc, tier, seed):
 def replay(case):
     acc = Acc()
     ns = loader.load()
+    if case.get("harness") == "order":
+        a = run_unit({"kind": "order", "label": "replay", "rot": case["rot"], "rev": case["rev"], "tier": "quick", "seed": 0})
+        return [(v["fp"], v["case"], v["detail"]) for v in a.viol.values()]
     if case.get("harness") == "value":
         T = ns.TYPES[case["type"]]
         attrs = T(0).attributes()
